@@ -151,7 +151,7 @@ class RowDenoisingTransformer(BaseEstimator, TransformerMixin):
 
         """
         if scipy.sparse.issparse(X):
-            if X.count_nonzero() == 0:
+            if np.count_nonzero(X.data) == 0:
                 warn("Cannot fit an empty matrix")
                 return self
             self.background_model_ = np.squeeze(
